@@ -68,3 +68,21 @@ End Framer.
 (** the instance used by DNSProtocol: the frame goes through Message.fromStr *)
 Definition dns_bad (frame : list N) : option pyexn :=
   match dec_message frame with Done _ => None | Raise e => Some e | Fuel => Some AssertionError end.
+
+(** ---- the UDP path: DNSDatagramProtocol.datagramReceived ----
+    Message.fromStr inside try / except EOFError ("Truncated packet") / except ValueError ("Invalid
+    packet") / except BaseException ("Unexpected decoding error"); every branch logs and returns, so
+    nothing is ever raised to the transport; a decoded message is handed to the controller. *)
+Inductive udp_result :=
+| UDelivered (m : message)
+| UDropped                       (* EOFError / ValueError: logged as a malformed packet, dropped *)
+| UUnexpected (e : option pyexn). (* anything else: logged as "Unexpected decoding error" *)
+
+Definition udp_receive (msg : list N) : udp_result :=
+  match dec_message msg with
+  | Done m => UDelivered m
+  | Raise EOFError => UDropped
+  | Raise ValueError => UDropped
+  | Raise e => UUnexpected (Some e)
+  | Fuel => UUnexpected None
+  end.
